@@ -64,8 +64,6 @@ package testonly
 //@ macro func fname(pass *analysis.Pass, f *ast.File) string = pass.Fset.Position(f.Pos()).Filename
 //@ macro func tkey(T types.Type) string = defPkg(T) + "." + defName(T)
 //@ macro func vkey(v TestOnlyViolation) string = v.ObjPkgPath + "." + v.TestOnlyObj
-// the decision of the suppression set (what IgnoreSet.Contains answers, C16)
-//@ macro func supp(ign *util.IgnoreSet, code string, pos token.Pos) bool = ign != nil && ign.Initialized && suppressed(ign, code, pos)
 
 // node n uses the @testonly type with key `key`; pos is where it would be reported
 //@ pure func useOf(pass *analysis.Pass, ann *annotations.PackageAnnotations, n ast.Node, key string, pos token.Pos) bool = (typeis(n, *ast.CompositeLit) && typeHit(pass, ann, pass.TypesInfo.TypeOf(cast(n, *ast.CompositeLit))) && key == tkey(pass.TypesInfo.TypeOf(cast(n, *ast.CompositeLit))) && pos == n.Pos()) || (typeis(n, *ast.ValueSpec) && cast(n, *ast.ValueSpec).Type != nil && typeHit(pass, ann, pass.TypesInfo.TypeOf(cast(n, *ast.ValueSpec).Type)) && key == tkey(pass.TypesInfo.TypeOf(cast(n, *ast.ValueSpec).Type)) && pos == n.Pos()) || (typeis(n, *ast.Field) && typeHit(pass, ann, pass.TypesInfo.TypeOf(cast(n, *ast.Field).Type)) && key == tkey(pass.TypesInfo.TypeOf(cast(n, *ast.Field).Type)) && pos == n.Pos())
